@@ -636,7 +636,7 @@ func runC17(c *gen.Ctx) error {
 	for _, l := range []*uint32{nil, u32(9)} {
 		c.Do("stream", c17StreamIn{[]c17Item{{Flags: 1, Payload: &c17Payload{Kind: "binary", Data: hello, Comp: 2}}, {Flags: 3, Length: l, Payload: &c17Payload{Kind: "binary", Data: hello, Comp: 7}}, {Flags: 0}}})
 	}
-	nStream := 1500
+	nStream := 4000
 	if th {
 		nStream = 40000
 	}
@@ -672,7 +672,7 @@ func runC17(c *gen.Ctx) error {
 	e.Add("arb-sequences", nArb)
 	// ---- (d) raw responses over real HTTP/1.1 and h2c
 	var jobs []any
-	nResp := 700
+	nResp := 1500
 	if th {
 		nResp = 12000
 	}
@@ -699,7 +699,7 @@ func runC17(c *gen.Ctx) error {
 	c.DoParallel("rawresp", jobs, 8)
 	// ---- (e) raw requests against a recording server
 	jobs = nil
-	nReq := 300
+	nReq := 600
 	if th {
 		nReq = 6000
 	}
